@@ -2,12 +2,15 @@
 
 Tie: the real command (click CliRunner on cij.cli.static.main) is run on synthetic data sets; its stdout
 table is parsed and every column is compared INSIDE Coq (vm_compute, FOps instance) with the model
-`s_run` of theories/StaticModel.v.  Tolerance: |model - printed| <= 2e-6 + 1e-6 |printed| (pandas prints
-6 decimals, i.e. +-5e-7 absolute).
+`s_run` of theories/StaticModel.v.  Tolerance per entry: |model - printed| <= 2e-6 + 1e-6 |printed|
+(pandas prints 6 decimals, i.e. +-5e-7 absolute); where the model has to start from PRINTED moduli (fill
+oracle with --system) the VRH columns additionally get the first-order propagation of that print resolution
+through the 6x6 inverse (vrh_sensitivity).  A printed NaN must be NaN in the model.
 
 Search stage: an oracle written from the property statement (own exact-rational least squares, chain rule
-for -dF/dV, CODATA unit factors, Hill's formulas) checks the column relations on every invocation and
-reports concrete (mode, options, row, column) failures.
+for -dF/dV, CODATA unit factors, Hill's formulas, rho v^2 relations) checks the column relations on every
+invocation and reports concrete (mode, options, row, column) failures.  Key `pressure-F-column` is the probe
+for the former defect D9 (F column repeating V in pressure mode; repaired in /repo ed06662).
 """
 import io
 import math
@@ -172,6 +175,36 @@ def close(a, b, rtol=RTOL, atol=ATOL):
     return abs(a - b) <= atol + rtol * abs(b)
 
 
+
+def vrh_sensitivity(df, r, eps=5e-7):
+    """first-order bound on the change of the VRH columns of row r when every printed modulus moves by eps
+    (= print resolution): ds = -s dc s.  Used only where the model has to start from PRINTED moduli
+    (fill oracle) - cancellation in bm_VRH = (bm_V + bm_R)/2 or a nearly singular tensor amplifies it."""
+    cm = numpy.zeros((6, 6))
+    mask = numpy.zeros((6, 6))
+    for (i, j) in ALL_PAIRS:
+        name = "c%d%d" % (i, j)
+        if name in df.columns:
+            cm[i - 1, j - 1] = cm[j - 1, i - 1] = df[name].iloc[r]
+            mask[i - 1, j - 1] = mask[j - 1, i - 1] = eps
+    try:
+        s = numpy.abs(numpy.linalg.inv(cm))
+    except numpy.linalg.LinAlgError:
+        return None
+    ds = 2 * s @ mask @ s
+    kr, gr = df["bm_R"].iloc[r], df["G_R"].iloc[r]
+    dk = ds[:3, :3].sum()
+    dg = 4 * ds[:3, :3].sum() + 3 * (ds[3, 3] + ds[4, 4] + ds[5, 5])
+    out = dict(bm_V=9 * eps / 9 * 2, G_V=15 * eps / 15 * 2, bm_R=2 * kr * kr * dk, G_R=2 * gr * gr / 15 * dg)
+    out["bm_VRH"] = (out["bm_V"] + out["bm_R"]) / 2
+    out["G_VRH"] = (out["G_V"] + out["G_R"]) / 2
+    rho = df["density"].iloc[r]
+    for name, dm in (("v_phi", out["bm_VRH"]), ("v_s", out["G_VRH"]), ("v_p", out["bm_VRH"] + 4 / 3 * out["G_VRH"])):
+        v = df[name].iloc[r]
+        out[name] = math.sqrt(dm / rho) if (math.isnan(v) or v <= 0) else min(math.sqrt(dm / rho), dm / (rho * v))
+    return out
+
+
 def oracle_case(ctx, c, df):
     """check the property statement on one invocation; returns number of failures recorded"""
     nfail = 0
@@ -261,12 +294,17 @@ def oracle_case(ctx, c, df):
                 fail("pressure-P", "mode pressure: row %d is not at p_min + j*delta_p GPa [%s]" % (j, tag), j, "P",
                      want, df["P"].iloc[r])
                 break
-        # F at the reported V: the fit (both obtained by 4-point Lagrange interpolation in P: measured)
-        erange = max(ens) - min(ens)
+        # F at the reported V: the fit.  V(P) and F(P) are 4-point Lagrange interpolants in P of the grids:
+        # measured; tolerance 0.1 * (|G'| h + max|G''| h^2) (one tenth of the variation of the fit over a
+        # grid cell; observed <= 0.02 of it on 120 random sets), plus the print resolution
+        h = vg[1] - vg[0]
         for r, j in enumerate(idx):
             want = fit.G(V[r])
-            if abs(Fo[r] - want) > 2e-3 * erange + 1e-6:
-                # D9 (static.py line 99: _f_array = v2p1d(v_array, ...)): stable key for the known defect
+            k = min(max(int((V[r] - vg[0]) / h), 1), ntv - 2)
+            scale = abs(fit.G1(V[r])) * h + fit.G2_bound(vg[max(k - 1, 0)], vg[min(k + 2, ntv - 1)]) * h * h
+            if not abs(Fo[r] - want) <= 0.1 * scale + 2e-6 / EV:
+                # stable key: this is where defect D9 (static.py line 99: _f_array = v2p1d(v_array, ...),
+                # repaired in ed06662) shows up
                 key = "pressure-F-column"
                 what = "mode pressure: F is not the fit at the reported V"
                 if close(Fo[r] * EV, V[r] * EV, rtol=1e-6):
@@ -276,7 +314,7 @@ def oracle_case(ctx, c, df):
         h = vg[1] - vg[0]
         for r, j in enumerate(idx):
             k = min(max(int((V[r] - vg[0]) / h), 1), ntv - 2)
-            tol = 4 * max(gb[max(k - 2, 1):min(k + 4, ntv - 1)]) + 1e-3 * abs(Po[r])
+            tol = 8 * max(gb[max(k - 2, 1):min(k + 4, ntv - 1)]) + 1e-3 * abs(Po[r])
             if k <= 2 or k >= ntv - 4:
                 tol += max(gb[0], gb[-1])
             want = -fit.G1(V[r])
@@ -336,10 +374,10 @@ def oracle_case(ctx, c, df):
         k, g = (kv + kr) / 2, (gv + gr) / 2
         rho = df["density"].iloc[r]
         want = dict(bm_V=kv, bm_R=kr, bm_VRH=k, G_V=gv, G_R=gr, G_VRH=g)
-        cond = numpy.linalg.cond(cm)
+        sens = vrh_sensitivity(df, r) or {}
         bad = False
         for name, w in want.items():
-            if not close(df[name].iloc[r], w, rtol=1e-5 + 1e-8 * cond, atol=1e-4):
+            if not close(df[name].iloc[r], w, rtol=1e-5, atol=1e-4 + 2 * sens.get(name, 0.0)):
                 fail("vrh-" + name, "%s is not the Voigt/Reuss/Hill average of the row's moduli [%s]" % (name, tag),
                      idx[r], name, w, df[name].iloc[r])
                 bad = True
@@ -420,15 +458,28 @@ From Cij Require Import Ops FOps StaticModel.
 Import ListNotations.
 Local Open Scope float_scope.
 
-(* rtol 1e-6, atol 2e-6; a printed NaN (velocity of a negative modulus) must be NaN in the model *)
-Definition tol6 (a b : float) : bool :=
-  if is_nan b then is_nan a else close 0x1.0c6f7a0b5ed8dp-20 0x1.0c6f7a0b5ed8dp-19 a b.
+(* |model - printed| <= t, t supplied per entry by the harness (2e-6 + 1e-6 |printed|, plus the propagated
+   print resolution of the fill oracle's moduli in the VRH columns); a printed NaN (velocity of a negative
+   modulus) must be NaN in the model *)
+Definition within (t a b : float) : bool := if is_nan b then is_nan a else abs (a - b) <=? t.
+Fixpoint within1 (t a b : list float) : bool :=
+  match t, a, b with
+  | [], [], [] => true
+  | x :: t', y :: a', z :: b' => within x y z && within1 t' a' b'
+  | _, _, _ => false
+  end.
+Fixpoint within2 (t a b : list (list float)) : bool :=
+  match t, a, b with
+  | [], [], [] => true
+  | x :: t', y :: a', z :: b' => within1 x y z && within2 t' a' b'
+  | _, _, _ => false
+  end.
 (* one invocation: model table vs printed table; in mode none additionally P vs the exact derivative of
    the fit within the harness-computed tolerance (GPa) *)
 Definition chk (mode : nat) (vols ens spl : list float) (ratio pmin dp : float) (ntv step : nat)
            (tab : option (@s_table float)) (cellmass : option float) (fills : option (list (list float)))
-           (obs : list (list float)) (ptol : list float) : bool :=
-  all_close2 tol6 (s_run mode vols ens spl ratio pmin dp ntv step tab cellmass fills) obs
+           (obs tols : list (list float)) (ptol : list float) : bool :=
+  within2 tols (s_run mode vols ens spl ratio pmin dp ntv step tab cellmass fills) obs
   && match mode with
      | O => forallb (fun x => let '(v, row, t) := x in
                       abs (s_to_gpa (s_pexact vols ens v) - nth 2 row 0) <=? t)
@@ -471,15 +522,20 @@ def coq_case(c, df):
     if missing:
         return None, "columns missing in the output: %s" % missing
     obs = [[df[x].iloc[r] for x in cols] for r in range(len(df))]
+    tols = []
+    for r in range(len(df)):
+        sens = (vrh_sensitivity(df, r) or {}) if (c["table"] and c["system"]) else {}
+        tols.append([ATOL + RTOL * (0.0 if math.isnan(df[x].iloc[r]) else abs(df[x].iloc[r]))
+                     + 2 * (sens.get(x, 0.0) if math.isfinite(sens.get(x, 0.0)) else 0.0) for x in cols])
     spl = [x / GPA for x in df["P"]] if mode == 0 else []
     step = "0%nat"
     if c["mode"] == "pressure" and c["dps"]:
         step = "(s_step %s %s)" % (qlit(c["dps"]), qlit(c["dp"]))
     ratio = c["ratio"] if c["ratio"] is not None else 1.2
-    term = "chk %d %s %s %s %s %s %s %d %s\n  (%s)\n  %s\n  %s\n  %s\n  %s" % (
+    term = "chk %d %s %s %s %s %s %s %d %s\n  (%s)\n  %s\n  %s\n  %s\n  %s\n  %s" % (
         mode, flist(c["vols"]), flist(c["ens"]), flist(spl), fhex(ratio), fhex(c["pmin"]), fhex(c["dp"]),
         c["ntv"], step, tab, "None" if c["cellmass"] is None else "(Some %s)" % fhex(c["cellmass"]), fills,
-        flist2(obs), flist(c.get("ptol", [])))
+        flist2(obs), flist2(tols), flist(c.get("ptol", [])))
     return term, None
 
 
@@ -514,7 +570,7 @@ def run(ctx):
 
     # static theorems (copy compiled per run so that Print Assumptions lands in the evidence)
     shutil.copy(PROPS / "Prop_C18.v", rd / "Prop_C18.v")
-    ctx.prove(rd / "Prop_C18.v", "Prop_C18.v (theorems about StaticModel.v)", "theorem-file")
+    ctx.prove(rd / "Prop_C18.v", "Prop_C18.v (18 theorems + 2 non-vacuity examples about StaticModel.v)", "theorem-file")
 
     import importlib
     import cij.cli.static as S
